@@ -116,7 +116,7 @@ type signInCase struct {
 }
 
 func runSignIn(rep *vh.Report, env vh.Env, stacks []*stack, other *sut.AuthStack, only int) {
-	n := env.Pick(2000, 56000)
+	n := env.Pick(2000, 48000)
 	const cells = 10 * 4 * 2 * 4 * 20 * 18 * 18
 	const stride = 1000003
 	vh.ForEach(n, 0, only, func(i int) {
